@@ -29,7 +29,7 @@ def profile(name, **kw):
         callers=(1, 3), small=False, check_all_every=16, nontarget=True,
         tx=dict(edit=6, query=3, derive_edit=0, relabel=0, twin=0, pair=0, mutant=0,
                 enum=0, enant=0, react=0, persist=0, algebra=0, faults=0, flip=0,
-                isomers=0, symnum=0, wlpair=0, large=0, hubs=0, copies=0, dense=0, changeshare=0, known=0, treepair=0, religand=0, build=1),
+                isomers=0, symnum=0, wlpair=0, large=0, hubs=0, copies=0, dense=0, changeshare=0, known=0, treepair=0, religand=0, exchange=0, build=1),
         fault_rate=(0.0, 0.15),
     )
     tx = dict(base["tx"])
@@ -45,15 +45,15 @@ profile("C10", tx=dict(edit=3, query=1, derive_edit=8, relabel=1, react=1, persi
         nontarget=True, check_all_every=4, callers=(2, 4))
 profile("C11", tx=dict(edit=3, query=2, relabel=8, twin=1, derive_edit=1, algebra=1, large=0.06, build=1))
 profile("C01", tx=dict(edit=4, query=1, twin=8, relabel=1, derive_edit=1, large=0.08, hubs=0.2, copies=1, build=2), max_atoms=(1, 12))
-profile("C03", tx=dict(edit=4, query=2, twin=8, pair=1, large=0.08, hubs=0.2, copies=0.5, build=2), max_atoms=(1, 12))
-profile("C02", tx=dict(edit=4, pair=5, mutant=6, derive_edit=2, wlpair=5, treepair=4, build=2), small=True, max_atoms=(2, 8))
+profile("C03", tx=dict(edit=4, query=2, twin=8, pair=1, derive_edit=1, algebra=1, large=0.08, hubs=0.2, copies=0.5, build=2), max_atoms=(1, 12))
+profile("C02", tx=dict(edit=4, pair=5, mutant=6, derive_edit=2, wlpair=5, treepair=4, exchange=1, build=2), small=True, max_atoms=(2, 8))
 profile("C05", tx=dict(edit=3, enum=8, symnum=2, derive_edit=2, wlpair=4, copies=1, build=2), small=True, max_atoms=(2, 13),
         callers=(2, 4))
 profile("C06", tx=dict(edit=3, enant=6, derive_edit=2, build=2), small=True, max_atoms=(2, 7),
         classes=("SMG", "SCRG"))
 profile("C08", tx=dict(edit=2, react=8, derive_edit=2, build=1), classes=("MG", "SMG", "CRG", "SCRG"), max_atoms=(3, 8))
 profile("C15", tx=dict(edit=5, persist=8, query=1, relabel=1, derive_edit=1, large=0.1, build=2))
-profile("C16", tx=dict(edit=3, pair=4, mutant=4, flip=4, isomers=4, react=2, hubs=0.5, known=0.15, build=3), small=True, max_atoms=(2, 8),
+profile("C16", tx=dict(edit=3, pair=4, mutant=4, flip=4, isomers=4, react=2, hubs=0.5, known=0.15, exchange=2, build=3), small=True, max_atoms=(2, 8),
         callers=(2, 3))
 profile("C17", tx=dict(edit=4, algebra=8, query=1, large=0.08, dense=0.5, build=2), max_atoms=(3, 14))
 
@@ -1446,6 +1446,67 @@ class Gen:
         if s in self.w.slots and not self.w.slots[s].locks:
             yield dict(k="drop", s=s)
 
+    def tx_exchange(self):
+        """degenerate exchange between equivalent positions: two copies of one
+        motif (separate molecules, or linked at one atom like the halves of
+        ethane) swap a ligand.  Atom by atom the reactant and the product
+        surroundings are those of the idle system, only the transition
+        structure tells the two apart (C16 third family; C02: unequal)"""
+        rng = self.rng
+        kinds = [k for k in self.cfg["classes"] if k in ("CRG", "SCRG")]
+        if not kinds:
+            yield from self.tx_build()
+            return
+        if len(self.w.slots) + 2 > self.w.max_slots:
+            for s in self.graphs(unlocked=True)[:2]:
+                yield dict(k="drop", s=s)
+        kind = rng.choice(kinds)
+        n = rng.choice((2, 2, 3, 4, 5))
+        els = [rng.choice(self.cfg["elements"]) for _ in range(n)]
+        # random tree on the motif
+        tree = [(rng.randrange(i), i) for i in range(1, n)]
+        if n >= 3 and rng.random() < 0.3:
+            x, y = rng.sample(range(n), 2)
+            if (min(x, y), max(x, y)) not in tree:
+                tree.append((min(x, y), max(x, y)))
+        swap = rng.choice(tree)
+        link = rng.choice((None, None, rng.randrange(n)))
+        if link is not None and link in swap and n == 2:
+            link = None
+        base = rng.choice((0, 30, -20, 2 ** 33))
+        stride = rng.choice((1, 2))
+        ida = [base + i * stride for i in range(n)]
+        idb = [base + (n + i) * stride + 1 for i in range(n)]
+        slots = []
+        for exchanged in (False, True):
+            atoms = [[a, z] for a, z in zip(ida, els)] + [[a, z] for a, z in zip(idb, els)]
+            bonds = []
+            for x, y in tree:
+                if exchanged and (x, y) == swap:
+                    bonds += [[ida[x], ida[y], "BROKEN"], [idb[x], idb[y], "BROKEN"],
+                              [ida[x], idb[y], "FORMED"], [idb[x], ida[y], "FORMED"]]
+                else:
+                    bonds += [[ida[x], ida[y], None], [idb[x], idb[y], None]]
+            if link is not None:
+                bonds.append([ida[link], idb[link], None])
+            seen = set()
+            bonds = [b for b in bonds if frozenset(b[:2]) not in seen and not seen.add(frozenset(b[:2]))]
+            rng.shuffle(atoms)
+            rng.shuffle(bonds)
+            s = self.slot_id()
+            slots.append(s)
+            yield dict(k="spec", dst=s, cls=kind, atoms=atoms, bonds=bonds, reserved=True)
+        a, b = slots
+        if self.w.graph(a) is None or self.w.graph(b) is None:
+            return
+        if rng.random() < 0.5:
+            a, b = b, a
+        yield dict(k="probe_pair", s1=a, s2=b, variants=rng.choice((0, 0, 2)), seed=rng.randrange(2 ** 31))
+        yield dict(k="probe_twin", s=slots[1], seed=rng.randrange(2 ** 31), route=rng.choice(("fresh", "relabel")))
+        for s in slots:
+            if s in self.w.slots and not self.w.slots[s].locks and rng.random() < 0.8:
+                yield dict(k="drop", s=s)
+
     def tx_dense(self):
         """near-complete graphs: long work lists, many ring closures"""
         rng = self.rng
@@ -1655,6 +1716,28 @@ class Gen:
             return
         yield dict(k="probe_pair", s1=a, s2=b)
         yield dict(k="probe_twin", s=a, seed=rng.randrange(2 ** 31), route=rng.choice(("fresh", "relabel")))
+        if kind in ("SMG", "SCRG") and rng.random() < 0.6 and self.w.graph(a) is not None:
+            # terminal ligands with stereo information of their own (a doubly
+            # bonded end written with lone-pair placeholders, a padded centre):
+            # siblings of one element that refinement does tell apart
+            m = self.w.slots[a].model
+            nb = m.neighbours()
+            for c in sorted(x_ for x_ in m.atoms if len(nb[x_]) >= 4)[:2]:
+                lig = sorted(nb[c])
+                for _ in range(rng.randint(1, 2)):
+                    t = rng.choice(lig)
+                    rest = [q for q in lig if q != t]
+                    if rng.random() < 0.6 and len(rest) >= 2:
+                        o = rng.sample(rest, 2)
+                        d = ["PlanarBond", [None, None, t, c, o[0], o[1]], 0]
+                        if rng.random() < 0.5:
+                            d = ["PlanarBond", [o[0], o[1], c, t, None, None], 0]
+                        yield dict(k="set_bstereo", s=a, d=d)
+                    else:
+                        yield dict(k="set_astereo", s=a, d=["Tetrahedral", [t, c, None, None, None], rng.choice((1, -1))])
+            for _ in range(3):
+                if self.w.graph(a) is not None:
+                    yield dict(k="probe_twin", s=a, seed=rng.randrange(2 ** 31), route=rng.choice(("fresh", "relabel")))
         for s in slots:
             if s in self.w.slots and not self.w.slots[s].locks:
                 yield dict(k="drop", s=s)
